@@ -454,6 +454,10 @@ func runC07(tier string, seed uint64) {
 	rng := NewRng(seed)
 	c07RequestIDs("mem", 16, 2500)
 	c07RequestIDs("bolt", 16, 800)
+	emit("c07", "H", "fsmem", "auto=0,versioned=0,pages=0,failpage=0", "-")
+	emit("c07", "NOMODEL")
+	c07PruneRace()
+	emit("c07", "E")
 	rounds, reps := 25, 2
 	if tier == "thorough" {
 		rounds, reps = 60, 12
